@@ -8,6 +8,7 @@ import (
 	"context"
 	"encoding/hex"
 	"fmt"
+	"sort"
 	"strconv"
 	"strings"
 
@@ -827,7 +828,18 @@ func ecrEntries(message, att []byte) string {
 
 // Session executes op lines against a World.
 type Session struct {
-	w *World
+	w     *World
+	snaps map[string]map[string]string
+}
+
+func (s *Session) snapshot() map[string]string {
+	m := map[string]string{}
+	it := s.w.ctx.KVStore(s.w.cctpKey).Iterator(nil, nil)
+	defer it.Close()
+	for ; it.Valid(); it.Next() {
+		m[hex.EncodeToString(it.Key())] = s.w.decodeVal(it.Key(), it.Value())
+	}
+	return m
 }
 
 func (s *Session) Exec(op Op) (line string) {
@@ -1012,6 +1024,27 @@ func (s *Session) Exec(op Op) (line string) {
 		return "out=ok r=" + r
 	case "dump":
 		return s.w.Dump()
+	case "snap":
+		if s.snaps == nil {
+			s.snaps = map[string]map[string]string{}
+		}
+		s.snaps[kv.get("id")] = s.snapshot()
+		return "out=ok"
+	case "snapdiff":
+		a, b := s.snaps[kv.get("a")], s.snaps[kv.get("b")]
+		var ks []string
+		for k, v := range a {
+			if bv, ok := b[k]; !ok || bv != v {
+				ks = append(ks, k)
+			}
+		}
+		for k := range b {
+			if _, ok := a[k]; !ok {
+				ks = append(ks, k)
+			}
+		}
+		sort.Strings(ks)
+		return "out=ok diff=" + joinOr(",", ks)
 	case "#":
 		return "#"
 	}
